@@ -388,6 +388,14 @@ func c19Collector(r *ev.Run) {
 		}
 		steps := 10 + rnd.Intn(40)
 		alpha := 2 + rnd.Intn(30)
+		// reports a reader still holds: HOTKEY walks the slice it was given without any lock, so a report that has been handed
+		// out must never change afterwards (the deterministic form of "a reader preempted in the middle of formatting")
+		type heldReport struct {
+			keys []hotkey.HotKey
+			was  []hkReport
+			at   int
+		}
+		var held []heldReport
 		for st := 0; st < steps; st++ {
 			switch x := rnd.Intn(10); {
 			case x < 5:
@@ -425,6 +433,24 @@ func c19Collector(r *ev.Run) {
 			if len(rep) > 1 {
 				r.Count("reports_with_several_keys", 1)
 			}
+			for _, h := range held {
+				now := snapshotReport(h.keys)
+				same := len(now) == len(h.was)
+				for i := 0; same && i < len(now); i++ {
+					same = now[i] == h.was[i]
+				}
+				if !same {
+					r.Violation("C19:held-report-changed", "a report handed out earlier changed under its reader (the reader walks it without a lock): "+strings.Join(reportProblems(now, int(capacity), isAccessed), "; "),
+						map[string]interface{}{"capacity": capacity, "handed_out_after_step": h.at, "report_then": h.was, "report_now": now, "trace": trace, "clock_ticks_every_n_reads": atomic.LoadInt64(&tickEvery)})
+				}
+				r.Count("held_reports_rechecked", 1)
+			}
+			if keys := col.HotKeys(); len(keys) > 0 {
+				held = append(held, heldReport{keys, snapshotReport(keys), st})
+				if len(held) > 4 {
+					held = held[1:]
+				}
+			}
 		}
 		close(stop)
 		rwg.Wait()
@@ -434,6 +460,7 @@ func c19Collector(r *ev.Run) {
 		}
 	}
 	r.Require("reports_with_several_keys", 100)
+	r.Require("held_reports_rechecked", 500)
 }
 
 var hotkeyLine = regexp.MustCompile(`^counter: (\d+)  keyname: (.*)$`)
